@@ -131,7 +131,7 @@ def cases(draw, max_steps=14):
         scn["ibm"].update(kills=[], lifetime=0)
         scn["dense_release"] = True
     ntag = len(scn["release"]["rows"])
-    variant = draw(st.sampled_from(["drop", "add", "permute", "kill_others", "shift", "repeat", "kill_others", "drop"]))
+    variant = draw(st.sampled_from(["drop", "add", "permute", "kill_others", "shift", "repeat", "kill_others", "drop", "add_zero"]))
     if scn.get("stage_cross"):
         variant = draw(st.sampled_from(["kill_others", "kill_others", "drop"]))
     if scn.get("units_shift"):
@@ -151,6 +151,13 @@ def cases(draw, max_steps=14):
         v["rows"] = [dict(step=draw(st.integers(0, max(0, scn["time"]["nsteps"] - 1))), cell=draw(st.integers(0, 10**6)),
                           fx=draw(st.floats(-0.45, 0.45)), fy=draw(st.floats(-0.45, 0.45)), zf=draw(st.floats(0, 1)),
                           mult=1, tag=1000 + k) for k in range(draw(st.integers(1, 4)))]
+    elif variant == "add_zero":
+        # rows with mult = 0 (they release nothing) at release times other rows use
+        steps_ = sorted(set(r["step"] for r in scn["release"]["rows"]))
+        v["kind"] = "add"
+        v["rows"] = [dict(step=draw(st.sampled_from(steps_)), cell=draw(st.integers(0, 10**6)), fx=0.1, fy=-0.1, zf=0.5,
+                          mult=0, tag=1000 + k) for k in range(draw(st.integers(1, 2)))]
+        v["zero"] = True
     elif variant == "permute":
         v["seed"] = draw(st.integers(0, 10**6))
     elif variant == "kill_others" and scn.get("dense_release"):
@@ -232,7 +239,7 @@ def trajectories(d, scn, names, columns=None):
 def oracle(scn) -> core.CaseResult:
     res = core.CaseResult()
     v = scn["variant"]
-    res.cls(v["kind"])
+    res.cls(v["kind"] + ("_zero_mult" if v.get("zero") else ""))
     res.cls(scn["output"]["layout"])
     if scn.get("coastal"):
         res.cls("coastal")
